@@ -65,30 +65,31 @@ theorem C15_implementation_target (st : Index) (f : Path) (line0 col : Nat) (l :
     | none => simp at h
     | some d => simp at h; exact ⟨d, rfl, by rw [← h]; rfl⟩
 
-/-- **C15 (a document symbol's selection range lies inside its range iff the fixture spans more
-    than one line or its name span is empty).** For one-line and assignment-style fixtures the
-    `range` is the empty range at column 0 while the selection is the name: not contained (E17). -/
+/-- **C15 (a document symbol's selection range lies inside its range)** — for every definition
+    whose lines are numbered from 1 and whose end is not before its start (every recorded one).
+    Before the E17 repair the `range` of a one-line or assignment-style fixture was the empty range
+    at column 0 and did not contain the name (`C15_selection_outside_range_before`). -/
 theorem C15_symbol_selection (st : Index) (f : Path) (s : Index.DocSymbol) (h : s ∈ st.hDocumentSymbols f) :
-    ∃ d ∈ st.defs, s.range = ⟨f, d.line - 1, 0, d.endLine - 1, 0⟩ ∧
+    ∃ d ∈ st.defs,
+      s.range = ⟨f, d.line - 1, 0, d.endLine - 1, if d.endLine == d.line then d.endChar else 0⟩ ∧
       s.selection = spanLoc f (d.line - 1) d.startChar d.endChar ∧
-      (d.line - 1 < d.endLine - 1 → Loc.within s.selection s.range) ∧
-      (d.line - 1 = d.endLine - 1 → 0 < d.endChar → ¬ Loc.within s.selection s.range) := by
+      (1 ≤ d.line → d.line ≤ d.endLine → Loc.within s.selection s.range) := by
   unfold Index.hDocumentSymbols at h
   rw [List.mem_map] at h
   obtain ⟨d, hd, rfl⟩ := h
   simp only [List.mem_filter] at hd
-  refine ⟨d, hd.1, rfl, rfl, ?_, ?_⟩
-  · intro hlt
-    simp only [Loc.within, spanLoc, toLsp]
-    exact ⟨Or.inr ⟨trivial, Nat.zero_le _⟩, Or.inl hlt⟩
-  · intro heq hpos hw
-    simp only [Loc.within, spanLoc, toLsp] at hw
-    rcases hw.2 with h2 | ⟨_, h2⟩
-    · omega
-    · omega
+  refine ⟨d, hd.1, rfl, rfl, ?_⟩
+  intro h1 hle
+  simp only [Loc.within, spanLoc, toLsp]
+  refine ⟨Or.inr ⟨trivial, Nat.zero_le _⟩, ?_⟩
+  by_cases he : d.endLine = d.line
+  · right
+    simp [he]
+  · left
+    omega
 
-/-- the witness: a one-line fixture -/
-theorem C15_selection_outside_range_exists :
+/-- the shape the repair removed: an empty range at column 0 does not contain a name -/
+theorem C15_selection_outside_range_before :
     ∃ (range selection : Loc), range = ⟨[], 3, 0, 3, 0⟩ ∧ selection = spanLoc [] 3 4 13 ∧
       ¬ Loc.within selection range := by
   refine ⟨_, _, rfl, rfl, ?_⟩
